@@ -515,8 +515,151 @@ def check(prop, tier, seed):
     return 1 if real else 0
 
 
+def check_c16(tier, seed):
+    """C16 has no histories: the inputs are rows (type, trait / question, kind of T) and the
+    implementation's side of the correspondence is rustc's verdict on /repo's working tree."""
+    import c16
+    prop = "C16"
+    t0 = time.time()
+    spec = PROPS[prop]
+    violations = []
+    cov = {"trusted_base": TRUSTED_BASE + [
+        "rustc 's trait solver and borrow checker decide the rows; tools/c16.py transcribes them",
+        "the capability table of lean/ALock/Markers.lean is written by hand from the public API (inventory compared on every run)"],
+        "partial": spec.get("partial", []), "theorems": [], "samples": []}
+    mods = spec["modules"]
+    names = []
+    for m in mods:
+        names += theorem_names(m)[0]
+    obligations = len(names) + 2          # + probe validity + API inventory
+    discharged = 0
+    ok_h, log_h, dt_h = build_harness()
+    facts = None
+    if not ok_h:
+        rp = write_replay(prop, "harness_build", {"property": prop, "kind": "correspondence",
+                          "what": "the marker table binary / harness no longer builds against /repo", "log": log_h})
+        violations.append((rp, "no-failing-input-found"))
+    else:
+        try:
+            facts = c16.generate()
+        except RuntimeError as e:
+            rp = write_replay(prop, "generate", {"property": prop, "kind": "correspondence",
+                              "what": "table generation failed", "log": str(e)})
+            violations.append((rp, "no-failing-input-found"))
+    if facts is not None:
+        ok_l, log_l, dt_l = build_lean(mods)
+        cov["lean_build_s"] = round(dt_l, 1)
+        cov["rows"] = {"auto_trait_rows": len(facts["auto"]) * 2, "method_rows": len(facts["callable"]),
+                       "variance_rows": len(facts["covariant"]), "lifetime_probes": len(facts["borrowed"]),
+                       "impl_headers_scanned": facts["impl_headers"], "api_items": facts["api_items"]}
+        # the report evaluates the same definitions; it names the offending rows
+        rc, out, err = sh(["lake", "env", "lean", "--run", "MarkersMain.lean"], cwd=LEAN)
+        bad = [l for l in out.splitlines() if l.startswith("BAD ")]
+        rows = [l for l in out.splitlines() if l.startswith("row ") or l.startswith("variance ")]
+        cov["samples"] = rows[:3] + [r for r in rows if "RwLockWriteGuard Send" in r][:4]
+        for b in bad:
+            w = b.split()
+            data = {"property": prop, "kind": "row", "what": b}
+            if w[1] == "marker":
+                x = w[2].split(".")[-1]
+                tr = w[3].lower()
+                k = w[4]
+                src = c16.marker_probe(x, tr, k)
+                data.update({"row": {"type": x, "trait": w[3], "kind_of_T": k},
+                             "what": "rustc accepts %s<T>: %s for T %s, but %s" % (x, w[3], k, b.split("via=")[-1]) +
+                                     " is reachable and needs a bound T lacks",
+                             "probe_source": src})
+            elif w[1] == "variance":
+                x = w[2].split(".")[-1]
+                data.update({"row": {"type": x, "question": "covariant in T"},
+                             "what": "%s is covariant in T but leads to &mut T" % x,
+                             "probe_source": open(os.path.join(c16.OUTDIR, "probes", "covariant__%s.rs" % x)).read(),
+                             "rustc_cmd": facts["probe_cmds"].get("covariant__%s" % x)})
+            elif w[1] == "outlives":
+                data.update({"row": {"borrowed": w[2], "question": "outlives its lock"},
+                             "probe_source": open(os.path.join(c16.OUTDIR, "probes", "outlives__%s.rs" % w[2])).read(),
+                             "rustc_cmd": facts["probe_cmds"].get("outlives__%s" % w[2])})
+            tag = re.sub(r"[^A-Za-z0-9]+", "_", " ".join(w[1:5]))[:60]
+            concrete = w[1] in ("marker", "variance", "outlives")
+            violations.append((write_replay(prop, tag, data), "" if concrete else "no-failing-input-found"))
+        if not ok_l:
+            if not bad:
+                failing = re.findall(r"error: ([^\n]+)", log_l)[:5]
+                rp = write_replay(prop, "lean_build", {"property": prop, "kind": "proof-obligation",
+                                  "what": "lake build of %s failed" % mods, "errors": failing, "log": log_l})
+                violations.append((rp, "no-failing-input-found"))
+        else:
+            aud = audit(mods)
+            cov["theorems"] = aud["theorems"]
+            if aud["ok"]:
+                discharged += len(names)
+            else:
+                rp = write_replay(prop, "axiom_audit", {"property": prop, "kind": "proof-obligation",
+                                  "what": "axiom audit failed", "bad_axioms": aud["bad_axioms"],
+                                  "forbidden": aud["forbidden"]})
+                violations.append((rp, "no-failing-input-found"))
+        if not facts["broken"] and not facts["foreign"]:
+            discharged += 1
+        if facts["api_added"] or facts["api_removed"]:
+            if not bad:
+                rp = write_replay(prop, "api_inventory", {"property": prop, "kind": "correspondence",
+                                  "what": "the public API of the T-parametric types differs from the inventory the "
+                                          "capability table accounts for", "added": facts["api_added"],
+                                  "removed": facts["api_removed"]})
+                violations.append((rp, "no-failing-input-found"))
+        else:
+            discharged += 1
+        if tier == "thorough":
+            n, diffs = c16.cross_check(c16.crate_rmeta(), facts["auto"])
+            obligations += 1
+            cov["rows"]["cross_check_probes"] = n
+            if diffs:
+                rp = write_replay(prop, "cross_check", {"property": prop, "kind": "correspondence",
+                                  "what": "direct assert_send/assert_sync probes disagree with the table", "diffs": diffs[:10]})
+                violations.append((rp, "no-failing-input-found"))
+            else:
+                discharged += 1
+    cov["checker_cmd"] = "python3 tools/c16.py && cd lean && lake build %s && lake env lean <#print axioms of every theorem>" % " ".join(mods)
+    cov["obligations"] = obligations
+    cov["discharged"] = discharged if not violations else min(discharged, obligations - 1)
+    nrows = sum(v for v in cov.get("rows", {}).values() if isinstance(v, int))
+    cov["evaluations"] = nrows
+    cov["distinct_nontrivial"] = cov.get("rows", {}).get("auto_trait_rows", 0)
+    cov["rule"] = "rows = (type, trait or question, kind of T) decided by rustc on the working tree; the table is the whole domain of the property"
+    cov["samples"].append({"theorem_statements_in": ["lean/" + m.replace(".", "/") + ".lean" for m in mods]})
+    ev = {"property_id": prop, "tier": tier, "seed": seed, "level": "proof", "coverage": cov,
+          "assumptions": list(spec.get("assumptions", [])), "wall_s": round(time.time() - t0, 2),
+          "violations": len(violations)}
+    os.makedirs(EVID, exist_ok=True)
+    json.dump(ev, open(os.path.join(EVID, prop + ".json"), "w"), indent=1)
+    for rp, suffix in violations:
+        print(("VIOLATION property=%s replay=%s %s" % (prop, rp, suffix)).rstrip())
+    if not violations:
+        print("OK property=%s tier=%s theorems=%d rows=%d wall=%.1fs" % (prop, tier, len(names), nrows, time.time() - t0))
+    return 1 if violations else 0
+
+
+def replay_row(data):
+    import c16
+    print("reason:", data.get("what"))
+    src = data.get("probe_source")
+    if not src:
+        print(json.dumps(data, indent=1)[:4000])
+        return 0
+    ok_h, log_h, _ = build_harness()
+    rmeta = c16.crate_rmeta()
+    os.makedirs(os.path.join(c16.OUTDIR, "probes"), exist_ok=True)
+    name, ok, errs, cmd = c16.run_probe(("replay_probe", src, rmeta))
+    print(src.split("pub struct Neither", 1)[-1].split("\n", 1)[-1])
+    print("rustc on /repo's working tree:", "ACCEPTS the program" if ok else "rejects it: %s" % errs[:2])
+    print("cmd:", cmd)
+    return 0
+
+
 def replay(path):
     data = json.load(open(path))
+    if data.get("kind") == "row":
+        return replay_row(data)
     hist = data.get("history")
     if not hist:
         print(json.dumps(data, indent=1)[:4000])
@@ -565,6 +708,8 @@ def main():
     if prop not in PROPS:
         print("unknown property", prop)
         return 2
+    if prop == "C16":
+        return check_c16(tier, seed)
     return check(prop, tier, seed)
 
 
